@@ -221,6 +221,32 @@ theorem stored_is_event_time (tsNow : Int) (enc : Enc) (u : TUnit) (v : Nat) (lo
     cases u <;> simp only [toMillis, inWindow] at h ⊢ <;> omega
   simp only [storedMillis, time_preserved enc u v lo h, hpos, if_false]
 
+/-- C16.3b hand-over from the protocol handlers (`ProcessIndexRequestPle` as repaired): a time the
+handler put on the event survives when the JSON record has no timestamp key of its own (OTLP logs:
+time_unix_nano), and a record's own time in any accepted unit and encoding still wins. -/
+theorem handler_time_kept (handlerMs : Int) (h : handlerMs ≠ 0) :
+    ingestStored handlerMs .absent = .ms handlerMs := by
+  simp [ingestStored, extractTimeStamp, h]
+
+theorem record_time_wins (handlerMs : Int) (enc : Enc) (u : TUnit) (v : Nat) (lo : Option Int) (h : inWindow u v) :
+    ingestStored handlerMs (scalarOf enc v lo) = .ms ((toMillis u v : Nat) : Int) := by
+  have hpos : ((toMillis u v : Nat) : Int) ≠ 0 := by
+    cases u <;> simp only [toMillis, inWindow] at h ⊢ <;> omega
+  simp only [ingestStored, time_preserved enc u v lo h, hpos, ne_eq, not_false_eq_true, if_true]
+
+/-- … and the arrival time is used only if the record carries no usable time of its own -/
+theorem arrival_only_if_record_has_no_time (handlerMs : Int) (sc : Scalar)
+    (h : ingestStored handlerMs sc = .now) : carriesNoTime sc := by
+  have key := arrival_only_if_absent sc
+  unfold ingestStored at h
+  cases hx : extractTimeStamp sc with
+  | now => exact key.1 (Or.inr hx)
+  | ms n =>
+    rw [hx] at h
+    by_cases hn : n = 0
+    · subst hn; exact key.1 (Or.inl hx)
+    · simp only [ne_eq, hn, not_false_eq_true, if_true, reduceCtorEq] at h
+
 /-! ## (4) the thresholds separate the windows -/
 
 /-- the unit that the threshold tests select (the cascade of ConvertTimestampToMillis /
